@@ -105,13 +105,15 @@ var c12Patches = []string{
 	// two changes that touch neighbouring code with comments around: the second one deletes the statement in front of
 	// what the first one rewrote (the changed regions of the second change are relative to the first one's result)
 	"@@\nvar x expression\n@@\n-chainFoo(x)\n+chainBar(x)\n\n@@\nvar x expression\n@@\n-chainDrop()\n chainBar(x)\n\n@@\nvar y expression\n@@\n chainBar(y)\n-chainAfter()\n",
+	// an import is removed: whether it may go depends on what still refers to the package, which every mode has to decide alike
+	"# drop dep\n@@\nvar x expression\n@@\n-import \"example.com/old/dep\"\n\n-dep.Do(x)\n+do(x)\n",
 }
 
 func init() {
 	core.Register(&core.Prop{
 		ID:    "C12",
 		Level: "exploration",
-		Rule: "cases: one patch (6 patches incl. multi-change, import-adding, described) x 1-12 generated/corpus files (layouts incl. CRLF, no final newline, long lines; an unparseable file mixed in) x flag set from {--skip-import-processing, --skip-generated, -v}; a fourth run passes --diff and --print-only together (either order) and must not write either; " +
+		Rule: "cases: one patch (8 patches incl. multi-change, import-adding, import-removing with shadowing locals, described) x 1-12 generated/corpus files (layouts incl. CRLF, no final newline, long lines; an unparseable file mixed in) x flag set from {--skip-import-processing, --skip-generated, -v}; a fourth run passes --diff and --print-only together (either order) and must not write either; " +
 			"the same inputs are run in place, with --print-only and with --diff on separate scratch copies, every 4th case with the dry runs under strace -f, plus the library API. Monitors: (1) syscall monitor: in dry-run modes the set of mutating syscalls " +
 			"(open for write/create/truncate, write to a file descriptor other than stdout/stderr, rename, unlink, mkdir, chmod, utimensat, ...) must be empty; (2) tree digest (names, bytes, inode, mtime, ctime) identical before/after a dry run; " +
 			"(3) agreement: in-place bytes == --print-only bytes == strict application of the printed unified diff == library bytes; descriptions on stderr only and only for rewritten files. non-trivial = >=1 file of the run is rewritten; distinct = (flag set, files-per-run class, patch, layouts).",
@@ -153,6 +155,8 @@ func runC12(ctx *core.Ctx, idx int) *core.Result {
 					plants = append(plants, gen.Plant{Kind: "decl", Text: fmt.Sprintf("func gen%d_%d() int {\n\treturn %d\n}", f, i, i)})
 				case 4:
 					plants = append(plants, gen.Plant{Kind: "expr", Text: "legacy(" + g.Atom() + ")"})
+				case 7:
+					plants = append(plants, gen.Plant{Kind: "expr", Text: "dep.Do(" + g.Atom() + ")"})
 				case 6:
 					a := g.Atom()
 					switch r.Intn(3) {
@@ -166,7 +170,20 @@ func runC12(ctx *core.Ctx, idx int) *core.Result {
 				}
 			}
 		}
-		src := g.File(gen.FileOpts{Plants: plants})
+		fo := gen.FileOpts{Plants: plants}
+		if pi == 7 {
+			fo.Imports = "import (\n\t\"example.com/old/dep\"\n\t\"os\"\n)\n"
+			switch r.Intn(4) {
+			case 0:
+				// a local variable with the name of the package is not a reference to the package
+				fo.Plants = append(fo.Plants, gen.Plant{Kind: "decl", Text: fmt.Sprintf("func shadow%d(dep *local) int {\n\treturn dep.Len() + dep.field.n\n}", f)})
+			case 1:
+				fo.Plants = append(fo.Plants, gen.Plant{Kind: "stmts", Text: "dep := mk()\ndep.Info(1)"})
+			case 2:
+				fo.Plants = append(fo.Plants, gen.Plant{Kind: "expr", Text: "dep.Other(2)"})
+			}
+		}
+		src := g.File(fo)
 		layout := "gofmt-like"
 		switch r.Intn(10) {
 		case 0:
